@@ -109,6 +109,7 @@ def generate(prop, seed, tier):
         sibling=rng.random() < 0.3,
         # the store path is a symbolic link (outputs kept elsewhere): to a file holding the previous value, or dangling
         symlink=rng.random() < 0.15,
+        symlink_loop=rng.random() < 0.3,     # (with prior "absent" only) the link points at itself: stat gives ELOOP
     )
 
 
@@ -133,7 +134,8 @@ def _prepare(d, desc):
         os.remove(os.path.join(d, name))
     target = os.path.join(d, desc.get("name", "t"))
     if desc.get("symlink"):
-        os.symlink(os.path.join(d, "elsewhere-" + desc.get("name", "t")), target)   # os.utime / open follow it
+        loop = desc.get("symlink_loop") and desc["prior"] == "absent"
+        os.symlink(target if loop else os.path.join(d, "elsewhere-" + desc.get("name", "t")), target)   # os.utime / open follow it
     if desc["prior"] != "absent":
         with open(target, "wb") as f:
             f.write(b"OLD-VALUE-" * 7)
@@ -154,6 +156,10 @@ def _read(path):
             return f.read()
     except FileNotFoundError:
         return None
+    except OSError as e:
+        if e.errno == errno.ELOOP:
+            return None      # a symbolic link pointing at itself: nothing is stored there
+        raise
 
 
 def execute(prop, desc):
